@@ -173,6 +173,8 @@ def handler_exit(S, outcome):
         exc = outcome[1]
         ok = {"PathIOError", "CancelledError"}
         name = exc.cls.name
+        if sess.verb in ("pasv", "epsv") and name == "OSError":
+            return  # the OS refused to bind the listener (not EADDRINUSE): environment fault outside C05's quantifier
         if name == "PathIOError":
             # C13(a): the dispatcher answers 451; the handler must not have announced success for this command
             cs = codes(sess)
@@ -252,6 +254,106 @@ def define_handler_units():
             c.exit_hook = pasv_exit if meth in ("pasv", "epsv") else handler_exit
             c.raises = {"PathIOError": [], "CancelledError": [], "Exception": []}
             c.mode = mode
+
+
+
+# ------------------------------------------------------------------------------------ C05: sequential reference model
+# per verb: reply codes allowed on a normal return, and the session fields the command may write
+GUARD = {"503"}
+PATH = {"550"}
+MODEL = {
+    "abor": ({"226", None} | GUARD, set()),
+    "appe": ({"150", "550"} | GUARD, {"extra_workers"}),
+    "cdup": ({"250"} | GUARD | PATH, {"current_directory"}),
+    "cwd": ({"250"} | GUARD | PATH, {"current_directory"}),
+    "dele": ({"250"} | GUARD | PATH, set()),
+    "epsv": ({"229", "421", "522"} | GUARD, {"passive_server", "passive_server_port", "data_connection"}),
+    "list": ({"150"} | GUARD | PATH, {"extra_workers"}),
+    "mkd": ({"257"} | GUARD | PATH, set()),
+    "mlsd": ({"150"} | GUARD | PATH, {"extra_workers"}),
+    "mlst": ({"250"} | GUARD | PATH, set()),
+    "pass": ({"230", "530"} | GUARD, {"logged"}),
+    "pasv": ({"227", "421"} | GUARD, {"passive_server", "passive_server_port", "data_connection"}),
+    "pbsz": ({"200"} | GUARD, set()),
+    "prot": ({"200", "502"} | GUARD, set()),
+    "pwd": ({"257"} | GUARD, set()),
+    "quit": ({"221"}, set()),
+    "rest": ({"350", "501"}, {"restart_offset"}),
+    "retr": ({"150"} | GUARD | PATH, {"extra_workers"}),
+    "rmd": ({"250"} | GUARD | PATH, set()),
+    "rnfr": ({"350"} | GUARD | PATH, {"rename_from"}),
+    "rnto": ({"250"} | GUARD | PATH, {"rename_from"}),
+    "stor": ({"150", "550"} | GUARD, {"extra_workers"}),
+    "syst": ({"215"}, set()),
+    "type": ({"200", "502"} | GUARD, {"transfer_type"}),
+    "user": ({"230", "331", "530"}, {"user", "logged", "current_directory", "rename_from"}),
+}
+ENDS_SESSION = {"221", "421"}
+T5 = {"props": ["C05"]}
+
+
+def c05_exit(S, outcome):
+    sess = S.vars["sess"]
+    verb = sess.verb
+    if verb is None or verb not in MODEL:
+        return
+    it = S.it
+    ctx = it.ctx
+    name = S.contract.qualname
+    cs = codes(sess)
+    allowed, may_store = MODEL[verb]
+    conn = sess.conn
+    d = conn.done_term
+    stores = [(e[1], e[2]) for e in ctx.events if e[0] == "store"]
+    written = {f for f, how in stores if how != "create-pending"}
+    ctx.check(f"{name}/exit:writes-only-the-session-fields-of-its-model", z3.BoolVal(written <= may_store), info=dict(T5, written=sorted(written)))
+    if outcome[0] != "return":
+        return
+    res = outcome[1]
+    # R1: exactly one final reply (ABOR with a running transfer: the replies come from the cancelled worker)
+    one = len(cs) == 1 or (verb == "abor" and len(cs) == 0)
+    ctx.check(f"{name}/exit:exactly-one-reply", z3.BoolVal(one), info=T5)
+    code = cs[-1] if cs else None
+    ctx.check(f"{name}/exit:reply-code-is-one-the-model-allows", z3.BoolVal(code in allowed), info=dict(T5, code=code))
+    # R5: the handler ends the session only after a reply that announces it
+    ctx.check(f"{name}/exit:ends-the-session-only-after-221-or-421", z3.BoolVal(res is not False or code in ENDS_SESSION), info=dict(T5, code=code))
+    ctx.check(f"{name}/exit:221-421-end-the-session", z3.BoolVal(code not in ENDS_SESSION or res is False), info=T5)
+    # R4: state of the reference model
+    if verb == "user":
+        st = {"230": b_and(d("logged"), d("user")), "331": b_and(d("user"), b_not(d("logged"))), "530": b_and(b_not(d("user")), b_not(d("logged")))}.get(code, False)
+        ctx.check(f"{name}/exit:login-state-matches-the-reply", tt(st), info=T5)
+        ctx.check(f"{name}/exit:pending-rename-does-not-survive-USER", tt(b_not(d("rename_from"))), info={"props": ["C05", "C02"]})
+        u = conn.slots["user"]
+        if code in ("230", "331") and isinstance(u.fut.value, Obj):
+            cwd = conn.slots["current_directory"]
+            ctx.check(f"{name}/exit:working-directory-reset-to-home", z3.BoolVal(cwd.fut.value is u.fut.value.fields["home_path"]), info=T5)
+    if verb == "pass":
+        ctx.check(f"{name}/exit:230-iff-logged-in-now", tt(b_implies(code == "230", d("logged"))), info=T5)
+        if code == "530":
+            ctx.check(f"{name}/exit:530-leaves-not-logged-in", tt(b_not(d("logged"))), info=T5)
+    if verb in ("cwd", "cdup"):
+        ctx.check(f"{name}/exit:cwd-changes-only-on-250", z3.BoolVal(("current_directory" in written) == (code == "250")), info=T5)
+    if verb == "rnfr":
+        ctx.check(f"{name}/exit:rename-pending-iff-350", z3.BoolVal(("rename_from" in written) == (code == "350")), info=T5)
+    if verb == "rnto" and code == "250":
+        ctx.check(f"{name}/exit:rename-consumed-on-250", tt(b_not(d("rename_from"))), info=T5)
+    if verb == "type":
+        ctx.check(f"{name}/exit:type-set-only-on-200", z3.BoolVal(("transfer_type" in written) == (code == "200")), info=T5)
+    if verb == "rest":
+        ro = conn.slots["restart_offset"].fut.value
+        if code == "501":
+            ctx.check(f"{name}/exit:501-clears-the-offset", tt(it.eq_term(ro, 0)), info=T5)
+    if verb in ("list", "mlsd", "retr", "stor", "appe"):
+        spawned = [e for e in ctx.events if e[0] == "spawn"]
+        ctx.check(f"{name}/exit:transfer-task-started-iff-150", z3.BoolVal((len(spawned) == 1) == (code == "150")), info=T5)
+
+
+_orig_handler_exit = handler_exit
+
+
+def handler_exit(S, outcome):  # noqa: F811
+    _orig_handler_exit(S, outcome)
+    c05_exit(S, outcome)
 
 
 define_handler_units()
